@@ -64,11 +64,11 @@ def is_eom_ack_report(m, pgn_cmp, peer_addr, dll='j1939-21'):
 
 
 def same_pgn(got, dp, pf, ps, pdu2):
-    """PGN equality as the property states it: (data page, PDU format) and for PDU2 the group extension.
-    For PDU1 the PS byte of the reported PGN is not compared (see DESIGN C01)."""
+    """PGN equality: data page, PDU format and, for PDU2, the group extension.  A PDU1 PGN has PS = 0 (the destination
+    address is not part of the PGN), whichever transport carried the message."""
     if pdu2:
         return got == dp * 65536 + pf * 256 + ps
-    return (got // 256) == dp * 256 + pf
+    return got == dp * 65536 + pf * 256
 
 
 def quiesce(w, extra='1/2'):
